@@ -14,7 +14,7 @@ Impl == JsonDeserialize(IOEnv.TRACE_FILE)   \* [rel : [name -> [key -> Seq(key)]
 Syms     == {"$", "<", ">"}
 Ids      == {NoId} \cup 0..12
 BondPrefixes == {"", "-", "=", "#", ":"}
-WForms   == {"none", "scalar", "list"}
+WForms   == {"none", "scalar", "list", "zero", "zlist"}
 
 U == [sym : Syms, id : Ids, pre : BondPrefixes, wf : WForms]
        \cup [sym : {""}, id : {NoId}, pre : BondPrefixes, wf : {"none"}]
@@ -25,13 +25,14 @@ Key(u) == u.sym \o "/" \o ToString(u.id) \o "/" \o u.pre \o "/" \o u.wf
 USeq == SetToSeq(U)
 N == Len(USeq)
 
-VARIABLE i
-Init == i = 0
-Next == i < N /\ i' = i + 1
-Spec == Init /\ [][Next]_i
+Row(u) == {e \in U : Compatible(D(u), D(e))}
+
+VARIABLES i, total       \* total: compatible ordered pairs counted so far
+Init == i = 0 /\ total = 0
+Next == i < N /\ i' = i + 1 /\ total' = total + Cardinality(Row(USeq[i + 1]))
+Spec == Init /\ [][Next]_<<i, total>>
 
 Cur == USeq[i]
-Row(u) == {e \in U : Compatible(D(u), D(e))}
 
 (* ---- theorems of the model, checked for every descriptor ---- *)
 Symmetric == i > 0 => \A e \in U : Compatible(D(Cur), D(e)) = Compatible(D(e), D(Cur))
@@ -62,5 +63,5 @@ Conformance ==
               (m.missing = {} /\ m.extra = {}) \/ PrintT(ToJson(m))
 Covered == i = N => PrintT(ToJson([universe |-> N,
                                    pairs |-> N * N,
-                                   compatible_pairs |-> SumSeq([k \in 1..N |-> Cardinality(Row(USeq[k]))])]))
+                                   compatible_pairs |-> total]))
 =============================================================================
